@@ -1,0 +1,28 @@
+//go:build verif
+
+// Package verifhook provides scheduling hooks for the verification harness.
+// With the build tag `verif` a registered callback is invoked at every hook site,
+// which lets the harness replay a chosen goroutine interleaving deterministically.
+package verifhook
+
+import (
+	"context"
+	"sync/atomic"
+)
+
+var fn atomic.Value // of func(context.Context, string)
+
+// Set registers (or, with nil, removes) the callback invoked by Yield.
+func Set(f func(ctx context.Context, site string)) {
+	if f == nil {
+		f = func(context.Context, string) {}
+	}
+	fn.Store(f)
+}
+
+// Yield hands control to the harness at the named site.
+func Yield(ctx context.Context, site string) {
+	if f, ok := fn.Load().(func(context.Context, string)); ok {
+		f(ctx, site)
+	}
+}
